@@ -103,6 +103,23 @@ def optAffAbutFreeT (M : Mat) (go ge : Int) (a b : Seq) : Int :=
   | some c => c.best.getD 0
   | none => 0
 
+/-! ## the C08 optimum read off a table that is built ONCE (C08's `Rec.table` recomputes every row from row 0) -/
+
+/-- rows `i, i+1, …, i+k` given row `i` -/
+def rowsGo {α : Type} (R : Rec α) (i : Nat) : Nat → List α → List (List α)
+  | 0, cur => [cur]
+  | k + 1, cur => cur :: rowsGo R (i + 1) k (R.nextRow i cur)
+
+/-- `Rec.table`, each row computed from its predecessor -/
+def tableFast {α : Type} (R : Rec α) (m n : Nat) : List (List α) := rowsGo R 0 n (R.row m 0)
+
+/-- `optT` with the local tables built incrementally (`optTFast_eq` in Proofs/C09.lean) -/
+def optTFast (mode : Mode) (gap : Gap) (M : Mat) (a b : Seq) : Int :=
+  match mode, gap with
+  | .local, .lin g => listMax 0 (tableFast (linRec .local M g a b) b.length a.length).flatten
+  | .local, .aff go ge => listMax 0 ((tableFast (affRec .local M go ge a b) b.length a.length).flatten.filterMap (·.m))
+  | mode, gap => optT mode gap M a b
+
 /-- the reported score against the optimum of the class the (completed) alignment belongs to (`optClass`):
 linear penalty -> `opt mode`; affine, no gap abuts a gap (free terminal gaps included) -> `optAff mode` (C08's class);
 affine semi-global, an interior gap run abuts a free terminal gap -> `optAffAbutFree` (three-state recursion with the
@@ -113,7 +130,7 @@ def optOk (a b : Seq) (M : Mat) (gap : Gap) (mode : Mode) (aln : Aln) (sc : Int)
   | .semi, .aff go ge =>
     if noAbutB (complete a b aln) then decide (sc ≤ optT .semi (.aff go ge) M a b)
     else decide (sc ≤ optAffAbutFreeT M go ge a b)
-  | mode, gap => decide (sc ≤ optT mode gap M a b)
+  | mode, gap => decide (sc ≤ optTFast mode gap M a b)
 
 /-- linear semi-global: also the positional form of the score; affine: no gap abuts a gap inside the trace -/
 def formOk (a b : Seq) (M : Mat) (gap : Gap) (mode : Mode) (aln : Aln) (sc : Int) : Bool :=
